@@ -11,7 +11,7 @@ host list a function of the key set).
 
 External behaviour taken as parameters (trusted base): `globMatch pattern s` is
 `glob.Compile(pattern)` (gobwas/glob, no separators) followed by `Match(s)`, `false` when the pattern does
-not compile; `globFrag` below is the executable model of it for the fragment literal / `*` / `?`.
+not compile or when `Match` panics (`route.globMatch` recovers: fix 749f459 of C02); `globFrag` below is the executable model of it for the fragment literal / `*` / `?`.
 `pick` is the configured picker, `skip` the redirect self-skip of `Lookup` (owned by C13).
 Case folding is ASCII (`lowerL`); `net.SplitHostPort`/`JoinHostPort` are modelled in full.
 
